@@ -11,16 +11,22 @@ package boltz
 //@ ghost ciFix : Bool private
 
 // readers used by the checks (interface level: assumed; the implementations listed with props are proved)
+// idsMatch(store, filter, db): some entity of the store satisfies the filter in database state db
+//@ spec idsMatch(store Int, filter Int, has (Array Int (Array Str Bool)), sub (Array Int (Array Str Int)), val (Array Int (Array Str Str))) Bool
 //@ func (Store).IterateValidIds
 //@   modifies *
 //@   ensures result != nil && dbSame()
+//@   ensures[valid-iff-some-entity-matches] (curPos[result] < curLen[result]) == idsMatch(self, ref(filter), bktHas, bktSub, bktVal)
 //@ func (Store).getLinks
 //@   pure
 //@ func (EntitySymbol).GetPath
 //@   pure
+// rtHasElems(sym, row, db): the set symbol has at least one element on the row in database state db
+//@ spec rtHasElems(sym Int, row Str, has (Array Int (Array Str Bool)), sub (Array Int (Array Str Int)), val (Array Int (Array Str Str))) Bool
 //@ func (RuntimeEntitySetSymbol).OpenCursor
 //@   modifies *
 //@   ensures result != nil && dbSame()
+//@   ensures[valid-iff-the-set-has-elements] (curPos[result] < curLen[result]) == rtHasElems(self, str(rowId), bktHas, bktSub, bktVal)
 //@ func (LinkCollection).GetFieldSymbol
 //@   pure
 //@ func (LinkCollection).GetLinkedSymbol
